@@ -25,8 +25,9 @@ theorem no_panic_of_guards (g : Guards) (hg : g.all = true) (i : Input) : (runWi
   cases he : i.entry <;> simp
   all_goals
     cases ho : i.oci <;> cases hb : i.blob <;> cases hs : i.sig <;> cases hm : i.manager <;>
-      simp [vVerify, vVerifyBlob, vVerifyBlobGenError, skipVerify, nVerify, nVerifyBlob, userMetadata, nilArgs, verifyWithStmt,
-        ho, hb, hs, hm, g1, g2, g3, g4, g5, g6, g7, g8, g9, g10, g11, failNoOutcome, failWith, okWith, panic]
+      (simp [vVerify, vVerifyBlob, vVerifyBlobGenError, skipVerify, nVerify, nVerifyBlob, userMetadata, nilArgs, verifyWithStmt,
+        ho, hb, hs, hm, blobStmt, g1, g2, g3, g4, g5, g6, g7, g8, g9, g10, g11, failNoOutcome, failWith, okWith, panic] <;> cases hn : i.named <;> simp [vVerify, vVerifyBlob, vVerifyBlobGenError, skipVerify, nVerify, nVerifyBlob, userMetadata, nilArgs, verifyWithStmt,
+        ho, hb, hs, hm, hn, blobStmt, g1, g2, g3, g4, g5, g6, g7, g8, g9, g10, g11, failNoOutcome, failWith, okWith, panic])
 
 theorem no_panic (i : Input) : (run i).panicked = false := no_panic_of_guards _ guards_present i
 
@@ -63,7 +64,7 @@ theorem err_consistency (i : Input) (hf : i.fuzz = false)
   rcases he with he | he | he <;> simp only [hf, he, Bool.false_eq_true, if_false]
   all_goals
     cases ho : i.oci <;> cases hb : i.blob <;> cases hs : i.sig <;> cases hm : i.manager <;>
-      simp [vVerify, vVerifyBlob, vVerifyBlobGenError, verifyWithStmt, ho, hb, hs, hm, g9, g10, g11, failNoOutcome, failWith, okWith, panic]
+      (simp [vVerify, vVerifyBlob, vVerifyBlobGenError, verifyWithStmt, ho, hb, hs, hm, blobStmt, g9, g10, g11, failNoOutcome, failWith, okWith, panic] <;> cases hn : i.named <;> simp [vVerify, vVerifyBlob, vVerifyBlobGenError, verifyWithStmt, ho, hb, hs, hm, hn, blobStmt, g9, g10, g11, failNoOutcome, failWith, okWith, panic])
 
 /-- the wrappers never report success without an outcome that is free of error -/
 theorem wrapper_success_has_clean_outcome (i : Input) (hf : i.fuzz = false)
@@ -77,8 +78,41 @@ theorem wrapper_success_has_clean_outcome (i : Input) (hf : i.fuzz = false)
   rcases he with he | he <;> simp only [hf, he, Bool.false_eq_true, if_false]
   all_goals
     cases ho : i.oci <;> cases hb : i.blob <;> cases hs : i.sig <;> cases hm : i.manager <;>
-      simp [vVerify, vVerifyBlob, skipVerify, nVerify, nVerifyBlob, verifyWithStmt, ho, hb, hs, hm,
-        g3, g6, g8, g9, g10, g11, failNoOutcome, failWith, okWith, panic]
+      (simp [vVerify, vVerifyBlob, skipVerify, nVerify, nVerifyBlob, verifyWithStmt, ho, hb, hs, hm, blobStmt,
+        g3, g6, g8, g9, g10, g11, failNoOutcome, failWith, okWith, panic] <;> cases hn : i.named <;> simp [vVerify, vVerifyBlob, skipVerify, nVerify, nVerifyBlob, verifyWithStmt, ho, hb, hs, hm, hn, blobStmt,
+        g3, g6, g8, g9, g10, g11, failNoOutcome, failWith, okWith, panic])
+
+/-- the statement lookup by name and the lookup of the global statement (empty `TrustPolicyName`)
+are both behind the one nil guard: unless the named statement is of level skip (which a global
+statement cannot be) the observation does not depend on which is asked for -/
+theorem policy_name_irrelevant (g : Guards) (i : Input) (b : Bool) (hs : i.blob ≠ .skip) :
+    runWith g { i with named := b } = runWith g i := by
+  unfold runWith
+  cases hf : i.fuzz <;> simp [hf]
+  cases hb : i.blob <;> simp_all <;>
+  cases he : i.entry <;> simp [he, hb, blobStmt, vVerify, vVerifyBlob, vVerifyBlobGenError, skipVerify, nVerify, nVerifyBlob, userMetadata]
+
+/-- a verifier without blob document answers both lookups alike: an error, no panic, no outcome -/
+theorem missing_document_same_for_both_lookups (i : Input) (hf : i.fuzz = false) (hb : i.blob = .missing)
+    (he : i.entry = .vVerifyBlob ∨ i.entry = .nVerifyBlob ∨ i.entry = .vVerifyBlobGenError) :
+    run i = failNoOutcome := by
+  have hg := guards_present
+  simp only [Guards.all, Bool.and_eq_true] at hg
+  obtain ⟨⟨⟨⟨⟨⟨⟨⟨⟨⟨g1, g2⟩, g3⟩, g4⟩, g5⟩, g6⟩, g7⟩, g8⟩, g9⟩, g10⟩, g11⟩ := hg
+  unfold run runWith
+  rcases he with he | he | he <;>
+    simp [hf, he, hb, vVerifyBlob, nVerifyBlob, vVerifyBlobGenError, g10, failNoOutcome]
+
+/-- a verifier shared by any number of goroutines gives each of them the sequential observation
+(the verifier has no state that a verification changes) -/
+theorem workers_irrelevant (g : Guards) (i : Input) (n : Nat) : runWith g { i with workers := n } = runWith g i := by
+  unfold runWith
+  cases hf : i.fuzz <;> simp [hf]
+  cases he : i.entry <;> simp [he, blobStmt, vVerify, vVerifyBlob, vVerifyBlobGenError, skipVerify, nVerify, nVerifyBlob, userMetadata]
+
+/-- in particular: no configuration, asked for the global blob statement from several goroutines, panics -/
+theorem no_panic_global_lookup_shared (i : Input) (n : Nat) : (run { i with named := false, workers := n }).panicked = false :=
+  no_panic _
 
 /-- **C12 (modelled part)**: every clause of `Holds` is true of the model's behaviour -/
 theorem model_holds (i : Input) : Holds i (run i) = true := by
@@ -90,9 +124,11 @@ theorem model_holds (i : Input) : Holds i (run i) = true := by
   · cases he : i.entry <;> simp only [Bool.false_eq_true, if_false]
     all_goals
       cases ho : i.oci <;> cases hb : i.blob <;> cases hs : i.sig <;> cases hm : i.manager <;>
-        simp [Clauses.holds, vVerify, vVerifyBlob, vVerifyBlobGenError, skipVerify, nVerify, nVerifyBlob, userMetadata, nilArgs,
-          verifyWithStmt, ho, hb, hs, hm, g1, g2, g3, g4, g5, g6, g7, g8, g9, g10, g11, failNoOutcome,
-          failWith, okWith, panic]
+        (simp [Clauses.holds, vVerify, vVerifyBlob, vVerifyBlobGenError, skipVerify, nVerify, nVerifyBlob, userMetadata, nilArgs,
+          verifyWithStmt, ho, hb, hs, hm, blobStmt, g1, g2, g3, g4, g5, g6, g7, g8, g9, g10, g11, failNoOutcome,
+          failWith, okWith, panic] <;> cases hn : i.named <;> simp [Clauses.holds, vVerify, vVerifyBlob, vVerifyBlobGenError, skipVerify, nVerify, nVerifyBlob, userMetadata, nilArgs,
+          verifyWithStmt, ho, hb, hs, hm, hn, blobStmt, g1, g2, g3, g4, g5, g6, g7, g8, g9, g10, g11, failNoOutcome,
+          failWith, okWith, panic])
   · simp [Clauses.holds]
 
 /-- non-vacuity: the two configurations that panicked before the repairs are now plain results -/
@@ -100,6 +136,16 @@ example : run { entry := .nVerifyBlob, oci := .missing, blob := .skip, manager :
     okWith false := by decide
 example : run { entry := .nVerify, oci := .missing, blob := .enforce, manager := true, sig := .valid, fuzz := false, label := "", data := "" } =
     failNoOutcome := by decide
+/-- an OCI-only verifier asked for the GLOBAL blob statement returns an error, with the guard; without it, it panics -/
+example : run { entry := .vVerifyBlob, oci := .enforce, blob := .missing, manager := true, sig := .valid, named := false, workers := 8, fuzz := false, label := "", data := "" } =
+    failNoOutcome := by decide
+example : (runWith { sourceGuards with vVerifyBlobDocNil := false }
+    { entry := .nVerifyBlob, oci := .enforce, blob := .missing, manager := true, sig := .valid, named := false, fuzz := false, label := "", data := "" }).panicked = true := by decide
+/-- a crashed child process of a concurrent stage / a panicking loader is a violation -/
+example : Holds { entry := .concurrent, oci := .enforce, blob := .enforce, manager := true, sig := .valid, workers := 16, fuzz := true, label := "", data := "" }
+    { panicked := true, err := false, outcome := none, consistent := false } = false := by decide
+example : Holds { entry := .loader, oci := .enforce, blob := .enforce, manager := true, sig := .valid, fuzz := true, label := "", data := "" }
+    { panicked := true, err := false, outcome := none, consistent := false } = false := by decide
 /-- `Holds` refutes a panic and an inconsistent pair -/
 example : Holds { entry := .vVerify, oci := .enforce, blob := .missing, manager := true, sig := .garbage, fuzz := false, label := "", data := "" }
     { panicked := false, err := true, outcome := none, consistent := true } = false := by decide
